@@ -912,3 +912,55 @@ def c15(ctx):
                        "256-row check matrix, or one flipped bit of the challenge response, or an honest batch (n up to 2049); the thorough "
                        "tier visits every (column,row); all tampered runs are non-trivial")
     ctx.check_drift()
+
+
+# ---------------------------------------------------------------------- C20
+@prop("C20")
+def c20(ctx):
+    thorough = ctx.tier == "thorough"
+    ctx.build()
+    ctx.assumptions += ["TLC checks the relations over all values of small primes and 3-bit labels; 256-bit moduli are checked by the harness "
+                        "with math/big, elements of moduli < 256 and all Fx/Fxk runs additionally by TLC on the recorded events",
+                        "moduli of at most 256 bits (the property's own bound)"]
+    ctx.tlc_expect_ok("Shares", "Shares_mc.cfg", name="shares-mc", timeout=3000)
+    trace = os.path.join(ctx.tmp, "shares_trace.ndjson")
+    res = os.path.join(ctx.tmp, "c20res.ndjson")
+    ctx.run_vh(["c20", "run", trace, res, 120 if thorough else 12], timeout=3400)
+    n = ctx.absorb(res)
+    rows = read_ndjson(trace)
+    ctx.cov["trace_events"] = len(rows)
+    t = ctx.tlc("SharesTrace", "SharesTrace.cfg", mode="trace", files=[trace], timeout=3000)
+    if t["status"] == "invariant":
+        ctx.violation("trace:SharesOK", "recorded shares of a real run violate SharesTrace.SharesOK", t["out"][-2000:])
+    elif t["status"] != "ok":
+        raise Broken("SharesTrace failed: %s\n%s" % (t["status"], t["out"][-3000:]))
+    else:
+        ctx.cov["traces_validated_against_impl"] += n
+    # the gadgets are called from concurrently running instances (one per peer in the BMR player): the same driver under
+    # the race detector - a race on the OT output of an instance means another instance's share can be returned
+    vr = ctx.build(race=True)
+    p = ctx.run_vh(["c20", "run", os.path.join(ctx.tmp, "race_trace.ndjson"), os.path.join(ctx.tmp, "c20race.ndjson"), 4], binary=vr,
+                   timeout=3000, check=False, env={"GORACE": "exitcode=66 halt_on_error=0"})
+    if "WARNING: DATA RACE" in p.stderr:
+        import re
+        where = sorted(set(re.findall(r"(/repo/(?:bmr|vole|ot)/[\w/]+\.go:\d+)", p.stderr)))[:6]
+        ctx.violation("data-race:concurrent-instances", "concurrently running gadget instances race on shared state (a share of another "
+                      "instance can be returned): %s" % ", ".join(where), p.stderr[:3000])
+    elif p.returncode != 0:
+        raise Broken("race-detector run failed rc=%d\n%s" % (p.returncode, p.stderr[-2000:]))
+    else:
+        ctx.absorb(os.path.join(ctx.tmp, "c20race.ndjson"))
+    r2 = [dict(x) for x in rows]
+    i = next((i for i, x in enumerate(r2) if x["ev"] == "vole" and x["p"] > 2), None)
+    if i is not None:
+        r2[i]["u"] = (r2[i]["u"] + 1) % r2[i]["p"]
+        p2 = os.path.join(ctx.tmp, "selftest", "shares_trace.ndjson")
+        os.makedirs(os.path.dirname(p2), exist_ok=True)
+        write_ndjson(p2, r2)
+        x = ctx.tlc("SharesTrace", "SharesTrace.cfg", mode="trace", files=[p2], name="shares-selftest")
+        if x["status"] != "invariant":
+            raise Broken("binding self-test: SharesTrace accepted a wrong share")
+        ctx.cov["binding_selftest"] = {"wrong-u": x["status"]}
+    ctx.cov["rule"] = ("one evaluation = one VOLE session of 2-3 Mul calls (lengths 1..2000 across chunk boundaries, large and small moduli, "
+                       "elements 0/1/p-1/short/random) with every element checked, or a batch of Fx/Fxk runs over all (a,b) and boundary labels, "
+                       "sequential and from 8 concurrent instances; all non-trivial")
